@@ -485,6 +485,7 @@ def _mk(rng, method=None, uri=None, host="one", body="rand", late=None, headers=
 
 
 def gen(rng, tier):
+    _tier["name"] = tier
     cases = []
     big = tier != "quick"
     # every byte value inside the method and inside the target (all invalid ones included), both ways of
@@ -519,6 +520,20 @@ def gen(rng, tier):
         d = _data(rng, n)
         cases.append(_mk(rng, method=b"POST", uri=b"/u", body={"length": None, "ops": [["w", d.hex()], ["f"]], "sync": 1}))
         cases.append(_mk(rng, method=b"POST", uri=b"/u", body={"length": n, "ops": [["w", d.hex()], ["f"]], "sync": 0}))
+    # very large single writes at the multiples of 64 KiB (and one either side): oracle-only in the quick tier (the
+    # bytes go through the reference request parser and h11, not through vm_compute)
+    for k in (1, 2, 3):
+        for delta in (-1, 0, 1):
+            n = 65536 * k + delta
+            d = bytes((i * 7 + k) % 251 for i in range(n))
+            pre = [["w", b"ab".hex()]] if rng.random() < 0.5 else []
+            post = [["w", b"tail".hex()]] if rng.random() < 0.5 else []
+            cases.append(_mk(rng, method=b"POST", uri=b"/big", late=False, headers=[[b"Host".hex(), [b"h".hex()]]],
+                             body={"length": None, "ops": pre + [["w", d.hex()]] + post + [["f"]],
+                                   "sync": rng.randrange(2)}))
+    d = bytes(i % 253 for i in range(65536))
+    cases.append(_mk(rng, method=b"PUT", uri=b"/big", late=False, headers=[[b"Host".hex(), [b"h".hex()]]],
+                     body={"length": 65536, "ops": [["w", d.hex()], ["f"]], "sync": 0}))
     # user-supplied framing headers (outside the theorem's guard; correspondence only)
     for _ in range(10 if not big else 100):
         hs = _headers(rng)
@@ -551,7 +566,17 @@ def corpus():
 # model side
 
 
+MODEL_MAX_BODY = {"quick": 5000, "thorough": 20000}      # bigger bodies are oracle-only
+_tier = {"name": "quick"}
+
+
 def to_coq(case):
+    b0 = case["body"]
+    if b0 is not None:
+        total = sum(len(o[1]) // 2 for o in b0["ops"] if o[0] == "w")
+        if total > MODEL_MAX_BODY.get(_tier["name"], 10 ** 9):
+            return None
+
     def op(o):
         if o[0] == "w":
             return f"PWrite {coq_bytes(H(o[1]))}"
@@ -605,6 +630,9 @@ SPEC = Spec(
     coq_fn="run_show",
     to_coq=to_coq,
     nontrivial=lambda c, o: True,
+    describe=lambda c: c if c["body"] is None else
+    {**c, "body": {**c["body"], "ops": [o if o[0] != "w" or len(o[1]) <= 200 else
+                                        ["w", o[1][:60] + f"...({len(o[1]) // 2} bytes)"] for o in c["body"]["ops"]]}},
     histogram=histogram,
     rule="every byte value 0-255 placed inside the method and inside the request-target (constructor and late "
          "attribute assignment), 0/1/2 Host values, random token methods / VCHAR targets / header sets (values "
